@@ -7,7 +7,8 @@
  * input (file argv[1]):
  *   S <base> <hex>                                  the shared read-only buffer
  *   T <tid>                                         following lines belong to thread tid
- *   L <slot> <hex>                                  load private buffer <slot> (0..3)
+ *   L <slot> <hex>                                  load private buffer <slot> (0..3); the private buffers of all threads are
+ *                                                   packed back to back (neighbours belong to different threads)
  *   D <slot|S> <view> <op> <path> <fidx> <val16> <base>     header operation
  *   V <dt> <withdest> <cap> <base> <hex>             decode the VSS value of a private message
  * output: one line per D / V command:  "<tid> <index> R ..." (same format as the executor)
@@ -45,7 +46,7 @@ static void* worker(void* arg)
     pthread_barrier_wait(&bar);
     for (size_t i = 0; i < t->n; i++) {
         Cmd* c = &t->cmds[i];
-        if (c->kind == 'L') { free(t->slots[c->slot]); t->slots[c->slot] = malloc(c->n + 1); memcpy(t->slots[c->slot], c->bytes, c->n); t->slotlen[c->slot] = c->n; continue; }
+        if (c->kind == 'L') { if (c->n <= t->slotlen[c->slot]) memcpy(t->slots[c->slot], c->bytes, c->n); continue; }
         if (c->kind == 'D') {
             uint8_t* a = c->slot < 0 ? shared : t->slots[c->slot]; size_t alen = c->slot < 0 ? sharedlen : t->slotlen[c->slot];
             OpRes r; run_op(c->v, c->op, c->path, c->fidx, 0, c->val, a + c->base, &r);
@@ -103,6 +104,13 @@ int main(int argc, char** argv)
         t->n++;
     }
     fclose(f);
+    /* private buffers are packed back to back in one arena, slot-major, so that the right-hand neighbour of (almost) every
+     * buffer belongs to ANOTHER thread: a call that touches bytes next to its own PDU races with that thread */
+    size_t total = 0;
+    for (int i = 0; i < nt; i++) for (size_t k = 0; k < thr[i].n; k++) { Cmd* c = &thr[i].cmds[k]; if (c->kind == 'L' && c->n > thr[i].slotlen[c->slot]) thr[i].slotlen[c->slot] = c->n; }
+    for (int sl = 0; sl < 4; sl++) for (int i = 0; i < nt; i++) total += thr[i].slotlen[sl];
+    uint8_t* packed = malloc(total + 64); size_t pos = 8;          /* 8-byte aligned start, like any allocation */
+    for (int sl = 0; sl < 4; sl++) for (int i = 0; i < nt; i++) { thr[i].slots[sl] = packed + pos; pos += thr[i].slotlen[sl]; }
     pthread_t th[MAXT];
     pthread_barrier_init(&bar, NULL, nt);
     for (int i = 0; i < nt; i++) pthread_create(&th[i], NULL, worker, &thr[i]);
